@@ -5,6 +5,7 @@
    extract_crash_kinds (no hypothesis): a Crash of extract_obj is one of
      OracleMissing   the eval oracle has no answer for a numeric text (the harness did not supply it)
      IndexError      words[0].where_str() inside an error message of a bool/int/ints/choice definition without words
+                     (and of a path definition without words if os.path.expanduser refused the empty text)
      AssertionError  bool_from_words on an empty word list; "." in a parameter name (__phil_set__);
                      __phil_join__ meeting a scope_extract_list in one block and, in a later block, anything but a
                      scope_extract_list or None
@@ -12,7 +13,8 @@
                      list / a word list (other_value.__dict__; None, Auto and a scope_extract_list are tolerated);
                      __phil_set__ of a .multiple object whose name already holds a non-list
    (since 3d13dfd the None placeholder of a disabled object in a later block is ignored by __phil_join__)
-   Never TypeError, KeyError, ValueError, OverflowError.  A parameter named like an attribute of scope_extract
+   Never TypeError, KeyError, ValueError, OverflowError.  A text that os.path.expanduser refuses (ValueError, e.g. a NUL
+   byte after the tilde) is the user error PathRefused (repaired in 65aa99d), whatever the oracle answers.  A parameter named like an attribute of scope_extract
    (dir(scope_extract), __phil_name__ ...) and float / custom types are UErr "Unmodelled" in this model, not Crash.
 
    extract_total: extract_wf o = true and a total eval oracle give Ok or UErr.
@@ -146,12 +148,13 @@ End Conv.
 
 Section Def.
   Variable pe : str -> option Conv.evr.
-  Variable ex : str -> str.
+  Variable ex : str -> option str.
 
   Lemma def_from_words_cres h a ws : cres (conv_crash pe ws) (def_from_words pe ex h a ws).
   Proof.
     unfold def_from_words. destruct (get_attr (s_ "type") a) as [| |b|z|s|t]; try exact I.
     destruct t; cbn [ty_from_words]; try exact I.
+    - unfold path_from_words. destruct (str_from_words ws); try exact I. destruct (ex s); [exact I|apply err_at_cres].
     - cbn [cty_of]. apply cres_bind; [apply (from_words_cres pe TyBool); reflexivity|intros; exact I].
     - cbn [cty_of]. apply cres_bind; [apply (from_words_cres pe (TyInt vmin vmax allow_none)); reflexivity|intros; exact I].
     - cbn [cty_of]. apply cres_bind;
@@ -210,7 +213,7 @@ Qed.
 
 Section Kinds.
   Variable pe : str -> option Conv.evr.
-  Variable ex : str -> str.
+  Variable ex : str -> option str.
 
   Definition extract_crash (c:str) : Prop :=
     (c = c_oracle /\ exists s, pe s = None) \/ c = c_index \/ c = c_assert \/ c = c_attr.
@@ -367,8 +370,8 @@ Proof.
   - (* no such attribute *)
     destruct (builtin_attr name); [split; [exact I|discriminate]|].
     destruct mult; cbn [negb] in *.
-    + inversion A; subst. assert (L : hs (fset name (VScopeList opt []) vf) (aset name HSList sf)) by (apply hs_set; [exact Hs|exact I]).
-      destruct value as [v|]; destruct vshape as [s|]; try contradiction.
+    + assert (L : hs (fset name (VScopeList opt []) vf) (aset name HSList sf)) by (apply hs_set; [exact Hs|exact I]).
+      destruct value as [v|]; destruct vshape as [s|]; try contradiction; cbn in A; inversion A; subst.
       * destruct (not_none v || negb (is_true opt)).
         -- split; [exact I|]. intros vf' E. inversion E; subst.
            apply (hs_update name _ HSList _ _ L); [apply aget_aset_same|exact I].
@@ -381,23 +384,18 @@ Proof.
       * inversion A; subst. split; [exact I|]. intros vf' E. inversion E; subst. apply hs_set; [exact Hs|exact I].
   - destruct mult; cbn [negb] in *.
     + (* .multiple, the attribute exists *)
-      destruct s as [| | |sf0].
-      * discriminate.
+      destruct value as [v|]; destruct vshape as [sv|]; try contradiction.
+      2:{ (* disabled: the attribute is left alone *)
+          cbn in A. inversion A; subst. split; [exact I|]. intros vf' E. inversion E; subst. exact Hs. }
+      destruct s as [| | |sf0]; cbn in A; try discriminate.
       * destruct x; try contradiction. inversion A; subst.
         assert (L : hs (fset name (VScopeList opt []) vf) (aset name HSList sf)) by (apply hs_set; [exact Hs|exact I]).
         assert (Ag : aget name (aset name HSList sf) = Some HSList) by apply aget_aset_same.
-        destruct value as [v|]; destruct vshape as [s|]; try contradiction.
-        -- destruct (not_none v || negb (is_true opt)); split; try exact I; intros vf' E; inversion E; subst;
-             [apply (hs_update name _ HSList _ _ L Ag); exact I|exact L].
-        -- split; [exact I|]. intros vf' E. inversion E; subst. exact L.
+        destruct (not_none v || negb (is_true opt)); split; try exact I; intros vf' E; inversion E; subst;
+          [apply (hs_update name _ HSList _ _ L Ag); exact I|exact L].
       * destruct x as [| | | | | | |o l]; try contradiction. inversion A; subst.
-        destruct value as [v|]; destruct vshape as [s|]; try contradiction.
-        -- destruct (not_none v || negb (is_true opt)); split; try exact I; intros vf' E; inversion E; subst;
-             [apply (hs_update name _ HSList _ _ Hs G2); exact I|exact Hs].
-        -- split; [exact I|]. intros vf' E. inversion E; subst. exact Hs.
-      * destruct x as [| | | | | |[n' vf0]|]; try contradiction.
-        destruct value as [v|]; destruct vshape as [s|]; try contradiction; try discriminate.
-        inversion A; subst. split; [exact I|]. intros vf' E. inversion E; subst. exact Hs.
+        destruct (not_none v || negb (is_true opt)); split; try exact I; intros vf' E; inversion E; subst;
+          [apply (hs_update name _ HSList _ _ Hs G2); exact I|exact Hs].
     + (* not .multiple, the attribute exists *)
       destruct value as [v|]; destruct vshape as [sv|]; try contradiction.
       * assert (Plain : forall sf'', Some (aset name sv sf) = Some sf'' ->
@@ -429,7 +427,7 @@ Qed.
 (* ------------------------------------------------------------------ extraction on shapes *)
 Section Total.
   Variable pe : str -> option Conv.evr.
-  Variable ex : str -> str.
+  Variable ex : str -> option str.
   Hypothesis O : oracle_total pe.
 
   Lemma flat_shape v : flatv v -> has_shape v HFlat.
@@ -521,23 +519,31 @@ Definition ex_disabled_in_later_block : obj :=
     tscope "s" false [tscope "t" true [tdef "b" "2" []] []; Def (mkhdr (s_ "m") true 0 false 1 1) [tw "2"] []] []] [].
 Example disabled_in_later_block_ok :
   extract_wf ex_disabled_in_later_block = true
-  /\ extract_obj (fun _ => None) (fun s => s) ex_disabled_in_later_block
+  /\ extract_obj (fun _ => None) (fun s => Some s) ex_disabled_in_later_block
      = Ok (VScope (Ext [] [(s_ "s", VScope (Ext (s_ "s")
             [(s_ "t", VScope (Ext (s_ "t") [(s_ "a", VList [VStr (s_ "1")])]));
              (s_ "m", VScopeList ANone [VList [VStr (s_ "1")]])]))])).
+Proof. split; vm_compute; reflexivity. Qed.
+
+(* repaired in ceef076: a disabled .multiple object after an active non-multiple namesake holding None leaves it None *)
+Example disabled_multiple_after_none_ok :
+  let t := tscope "" false [tdef "c" "None" [(s_ "type", AType TyPath)];
+                            Def (mkhdr (s_ "c") true 0 false 1 1) [tw "x"] multi] [] in
+  extract_wf t = true
+  /\ extract_obj (fun _ => None) (fun s => Some s) t = Ok (VScope (Ext [] [(s_ "c", VNone)])).
 Proof. split; vm_compute; reflexivity. Qed.
 
 (* what still raises: blocks of one scope that disagree in kind (a scope here, a definition there) ... *)
 Example kind_disagreement_crashes :
   let t := tscope "" false [tscope "s" false [tscope "t" false [tdef "a" "1" []] []] [];
                             tscope "s" false [tdef "t" "5" []] []] [] in
-  extract_wf t = false /\ extract_obj (fun _ => None) (fun s => s) t = Crash c_attr.
+  extract_wf t = false /\ extract_obj (fun _ => None) (fun s => Some s) t = Crash c_attr.
 Proof. split; vm_compute; reflexivity. Qed.
 (* ... or in .multiple *)
 Example multiple_disagreement_crashes :
   let t := tscope "" false [tscope "s" false [tdef "a" "1" multi] [];
                             tscope "s" false [tdef "a" "x" []] []] [] in
-  extract_wf t = false /\ extract_obj (fun _ => None) (fun s => s) t = Crash c_assert.
+  extract_wf t = false /\ extract_obj (fun _ => None) (fun s => Some s) t = Crash c_assert.
 Proof. split; vm_compute; reflexivity. Qed.
 
 Print Assumptions extract_crash_kinds.
